@@ -705,7 +705,9 @@ def meta(tier):
                 'probe | synthetic dispatch lattice (4 signatures^2 x 2 range kinds x 6 '
                 'instantiation orders) | return-convention probe | introspection. distinct = set of '
                 'operator classes executed per state + executed-line signature of '
-                'Operator.__call__ / dispatch',
+                'Operator.__call__ / dispatch. History inside a state: the result of the previous '
+                'out-of-place call is held and must survive the next call; a non-finite result is '
+                're-executed under a second poison value (uninitialised memory)',
         'bounds': {'points_per_operator': 3 if tier == 'quick' else 5,
                    'closure_depth': 1 if tier == 'quick' else 2,
                    'prior_out': ['fresh (NaN-poisoned)', '1e30', 'result for another input'],
